@@ -750,6 +750,7 @@ def _run_boolseq(cfg) -> Dict[str, Any]:
 # ---------------------------------------------------------------------------
 # the same error answer over every carrier: memory streams are not the only inbound path
 # ---------------------------------------------------------------------------
+NULL_COMPANIONS = [{}, {"result": None}, {"result": None, "params": None}, {"params": None}, {"method": None, "result": None}]
 CARRIERS = ["stdio", "http-json-body", "http-sse-body", "sse-event-stream", "sse-immediate-json"]
 
 
@@ -771,23 +772,26 @@ def _run_carrier(cfg) -> Dict[str, Any]:
     loop = new_loop(horizon=600)
     q = seams.Quiescence(loop)
     results: List[tuple] = []
-    state: Dict[str, Any] = {"err": None}
+    state: Dict[str, Any] = {"err": None, "extra": {}}
 
     def response_for(req_id):
-        return {"jsonrpc": "2.0", "id": req_id, "error": state["err"]}
+        return {"jsonrpc": "2.0", "id": req_id, "error": state["err"], **state["extra"]}
 
     async def calls(read, write):
-        for sh in shapes:
-            state["err"] = error_obj(code, sh)
-            try:
-                r = await send_message(read, write, "tools/list", {"a": None}, timeout=3.0)
-                results.append((sh, "returned", r))
-            except BaseException as e:  # noqa: BLE001
-                if isinstance(e, (KeyboardInterrupt, SystemExit)):
-                    raise
-                hd._strip_tracebacks(e)
-                results.append((sh, "raised", e))
-            await q.settle()
+        for i, sh in enumerate(shapes):
+            # serialisers that do not omit empty members: the error response also carries explicit nulls
+            for extra in (NULL_COMPANIONS if i < 3 else NULL_COMPANIONS[:1]):
+                state["err"] = error_obj(code, sh)
+                state["extra"] = dict(extra)
+                try:
+                    r = await send_message(read, write, "tools/list", {"a": None}, timeout=3.0)
+                    results.append((sh, "returned", r, extra))
+                except BaseException as e:  # noqa: BLE001
+                    if isinstance(e, (KeyboardInterrupt, SystemExit)):
+                        raise
+                    hd._strip_tracebacks(e)
+                    results.append((sh, "raised", e, extra))
+                await q.settle()
 
     async def main():
         if carrier == "stdio":
@@ -859,13 +863,16 @@ def _run_carrier(cfg) -> Dict[str, Any]:
                      "msg": f"{status}: {val!r}; carrier={carrier} code={code}"})
         return {"outcome": "carrier:" + status, "violations": viol, "counters": counters}
     outs = set()
-    for sh, kind, x in results:
+    for sh, kind, x, extra in results:
         counters["carrier_calls"] += 1
         o = {"status": "ok", "errors": [], "leftover": 0, "outcome": kind, ("value" if kind == "returned" else "exc"): x}
         sub: List[dict] = []
-        outs.add(_judge_raise(o, code, sh, "send_message", sub, f"carrier={carrier} code={code} shape={shape_name(sh)}"))
+        comp = "+".join(sorted(extra)) or "none"
+        outs.add(_judge_raise(o, code, sh, "send_message", sub,
+                              f"carrier={carrier} code={code} shape={shape_name(sh)} explicit null members beside the error: {comp}"))
         for v in sub:
-            v["sig"] = {**v["sig"], "carrier": carrier, "message": MESSAGES[sh[0]][0] if sh[0] < N_PLAIN_MESSAGES else "special"}
+            v["sig"] = {**v["sig"], "carrier": carrier, "message": MESSAGES[sh[0]][0] if sh[0] < N_PLAIN_MESSAGES else "special",
+                        "null-companions": comp}
         viol.extend(sub[:3])
     if errors:
         viol.append({"sig": {"class": "loop-error", "carrier": carrier}, "msg": f"{errors[:2]}; carrier={carrier} code={code}"})
@@ -1234,7 +1241,8 @@ def run(tier: str, only=None) -> core.Result:
         "return its own result; send_message through the REAL inbound paths of every carrier - stdio (scripted child), Streamable HTTP with a JSON body and with an "
         "SSE body, legacy SSE with the answer on the event stream and as an immediate JSON body (scripted httpx layer) - x "
         + ("boundary codes" if tier == "quick" else "every code") + " x every wire-representable shape for the named codes (5 shapes incl. the EMPTY message for the others): "
-        "class, code and message must be the same as over memory streams; every helper called twice on one connection (call 1 times out, its successful answer arrives "
+        "class, code and message must be the same as over memory streams, also when the error response carries explicit null companions "
+        "(result: null, params: null, method: null - serialisers that do not omit empty members); every helper called twice on one connection (call 1 times out, its successful answer arrives "
         "late and stays unread, call 2 is answered with an error over 19 codes for the boolean helpers): the two calls must write different request ids and call 2 must "
         "report ITS answer; (iii) every discovered request helper x argument profiles "
         "{required only, all optionals, second Union arm} x "
